@@ -2,9 +2,15 @@
 package main
 
 import (
+	"encoding/json"
 	"fmt"
 	"os"
+	"os/exec"
+	"path/filepath"
+	"runtime/debug"
 	"sort"
+	"strconv"
+	"sync"
 
 	"github.com/ProtonMail/gluon/verif/drivers"
 	"github.com/ProtonMail/gluon/verif/pkg/ev"
@@ -43,10 +49,33 @@ func main() {
 		usage()
 	}
 	run := ev.New(e.ID, tier, e.Level)
+	if part := os.Getenv("VERIF_PARTIAL"); part != "" {
+		// shard process: do the work, hand the results to the parent
+		func() {
+			defer func() {
+				if p := recover(); p != nil {
+					run.Machinery("harness panic in shard: %v\n%s", p, debug.Stack())
+				}
+			}()
+			e.Fn(run, tier, replay)
+		}()
+		if err := run.WritePartial(part); err != nil {
+			fmt.Fprintln(os.Stderr, "shard:", err)
+			os.Exit(2)
+		}
+		os.Exit(0)
+	}
+	shards := e.ShardsQuick
+	if tier == "thorough" {
+		shards = e.ShardsThorough
+	}
+	if shards > 1 && replay == "" {
+		os.Exit(runSharded(run, e.ID, tier, shards))
+	}
 	func() {
 		defer func() {
 			if p := recover(); p != nil {
-				run.Machinery("harness panic: %v", p)
+				run.Machinery("harness panic: %v\n%s", p, debug.Stack())
 			}
 		}()
 		e.Fn(run, tier, replay)
@@ -62,4 +91,48 @@ func usage() {
 	sort.Strings(ids)
 	fmt.Fprintf(os.Stderr, "usage: vcheck <id> <quick|thorough> [--replay file]\nknown ids: %v\n", ids)
 	os.Exit(2)
+}
+
+// runSharded runs the check in n worker processes and merges what they found.
+func runSharded(run *ev.Run, id, tier string, n int) int {
+	dir, err := os.MkdirTemp("", "verif-shards-")
+	if err != nil {
+		run.Machinery("%v", err)
+		return run.Finish()
+	}
+	defer os.RemoveAll(dir)
+	exe, _ := os.Executable()
+	var wg sync.WaitGroup
+	outs := make([][]byte, n)
+	errs := make([]error, n)
+	for k := 0; k < n; k++ {
+		wg.Add(1)
+		go func(k int) {
+			defer wg.Done()
+			cmd := exec.Command(exe, id, tier)
+			cmd.Env = append(os.Environ(), "VERIF_SHARD="+strconv.Itoa(k), "VERIF_SHARDS="+strconv.Itoa(n),
+				"VERIF_PARTIAL="+filepath.Join(dir, strconv.Itoa(k)+".json"))
+			outs[k], errs[k] = cmd.CombinedOutput()
+		}(k)
+	}
+	wg.Wait()
+	for k := 0; k < n; k++ {
+		b, err := os.ReadFile(filepath.Join(dir, strconv.Itoa(k)+".json"))
+		if err != nil {
+			tail := string(outs[k])
+			if len(tail) > 3000 {
+				tail = tail[len(tail)-3000:]
+			}
+			run.Machinery("shard %d produced no result (%v): %s", k, errs[k], tail)
+			continue
+		}
+		var p ev.Partial
+		if err := json.Unmarshal(b, &p); err != nil {
+			run.Machinery("shard %d: %v", k, err)
+			continue
+		}
+		run.Merge(&p)
+	}
+	run.Set("worker_processes", n)
+	return run.Finish()
 }
